@@ -73,19 +73,27 @@ class IntModUnpackSecret(_Pack):
     name = "pysnark.pack:PackIntMod.unpack"
 
     def configs(self, tier):
-        return [dict(mod=m, pos=pos, mode=md) for m in (2, 5, 8) for pos in (0, 2) for md in ("plain", "ie")]
+        out = [dict(mod=m, pos=pos, mode=md) for m in (2, 5, 8) for pos in (0, 2) for md in ("plain", "ie")]
+        # the bits pack() makes out of a secret are LinCombBool objects: they are recomposed as they are (their width
+        # was enforced when they were made), for every schema width -- also one wider than the global bitlength
+        out += [dict(mod=m, pos=0, mode="plain", bits="bool") for m in (5, 100, 1000)]
+        return out
 
     def setup(self, c, cfg):
-        apply_mode(c, cfg["mode"], bitlength=5)
+        apply_mode(c, cfg["mode"], bitlength=(3 if cfg.get("bits") == "bool" else 5))
         P = _pk(c).PackIntMod(cfg["mod"])
         n = P.bitlen()
         self._bits = [c.operand_bool("b%d" % i) for i in range(cfg["pos"] + n + 1)]
+        if cfg.get("bits") == "bool":
+            return type(P).unpack, (P, list(self._bits), cfg["pos"]), {}
         return type(P).unpack, (P, [b.lc for b in self._bits], cfg["pos"]), {}
 
     def pre(self, c, P, bits, pos):
-        return [(1 << 7) < c.p]
+        return [(1 << 12) < c.p]
 
     def raises(self, c, P, bits, pos):
+        if c.cfg.get("bits") == "bool":
+            return []
         n = P.bitlen()
         val = bitsum([c.v(b) for b in bits[pos:pos + n]])
         return [(AssertionError, And(Not(ie(c)), val >= P.mod))]
@@ -94,9 +102,11 @@ class IntModUnpackSecret(_Pack):
         n = P.bitlen()
         val = bitsum([c.v(b) for b in bits[pos:pos + n]])
         vala = bitsum([c.eva(b) for b in bits[pos:pos + n]])
-        return {"V.value": Eq(c.v(r), val), "V.inv": c.inv(r),
-                "S.bounded": Implies(And(on(c), And(*[is01(c.eva(b)) for b in bits])), vala < P.mod),
-                "E.enforced": Implies(And(on(c), And(*[c.tied(b) for b in bits])), val < P.mod)}
+        d = {"V.value": Eq(c.v(r), val), "V.inv": c.inv(r)}
+        if c.cfg.get("bits") != "bool":
+            d["S.bounded"] = Implies(And(on(c), And(*[is01(c.eva(b)) for b in bits])), vala < P.mod)
+            d["E.enforced"] = Implies(And(on(c), And(*[c.tied(b) for b in bits])), val < P.mod)
+        return d
 
 
 @register
